@@ -1,23 +1,274 @@
+// C17: condition.Build is total and type-checked.  Ops (see coq/run/RunC17.v):
+//
+//	[1 text]                 raw bytes
+//	[2 name args oracle]     one call with arbitrary argument lists
+//	[3 toks calls oracle]    composite expression over calls / bare identifiers
+//
+// output: 0 = condition returned, 1 = error returned ([-2] on panic, [-3] on hang via hv)
 package main
 
 import (
-	"fmt"
-	"os"
+	"strings"
+	"time"
+
+	"verif/harness/condh"
+	"verif/harness/hv"
 
 	"github.com/bfenetworks/bfe/bfe_basic/condition"
 )
 
-func try(s string) {
-	defer func() {
-		if e := recover(); e != nil {
-			fmt.Printf("%q => PANIC %v\n", s, e)
-		}
-	}()
-	c, err := condition.Build(s)
-	fmt.Printf("%q => %v %v\n", s, c != nil, err)
-}
-func main() {
-	for _, s := range os.Args[1:] {
-		try(s)
+func build(text string) hv.Val {
+	c, err := condition.Build(text)
+	if err != nil {
+		return hv.I(1)
 	}
+	if c == nil {
+		return hv.I(7) // neither a condition nor an error
+	}
+	return hv.I(0)
+}
+
+func styleOf(name string, args []condh.Arg) uint64 {
+	s := uint64(len(name))
+	for _, a := range args {
+		s += uint64(len(a.Val))
+	}
+	return s
+}
+
+func impl(in hv.Val) hv.Val {
+	l := hv.AsList(in)
+	switch hv.AsInt(l[0]) {
+	case 1:
+		return build(hv.AsStr(l[1]))
+	case 2:
+		name := hv.AsStr(l[1])
+		args := condh.ArgsOf(l[2])
+		return build(condh.RenderCall(name, args, styleOf(name, args)))
+	default:
+		calls := hv.AsList(l[2])
+		var sb strings.Builder
+		for _, t := range hv.AsList(l[1]) {
+			k := int(hv.AsInt(t))
+			switch {
+			case k >= 0 && k < 64:
+				c := hv.AsList(calls[k])
+				name := hv.AsStr(c[0])
+				if len(c) == 1 {
+					sb.WriteString(name)
+				} else {
+					args := condh.ArgsOf(c[1])
+					sb.WriteString(condh.RenderCall(name, args, styleOf(name, args)))
+				}
+			case k == 100:
+				sb.WriteString("&&")
+			case k == 101:
+				sb.WriteString("||")
+			case k == 102:
+				sb.WriteString("!")
+			case k == 103:
+				sb.WriteString("(")
+			case k == 104:
+				sb.WriteString(")")
+			}
+			sb.WriteString(" ")
+		}
+		return build(sb.String())
+	}
+}
+
+// ---------------------------------------------------------------- generators
+var strPool = []string{"", "a", "www.example.com|example.com", "a:80", "10.0.0.1", "10.0.0.9", "::1", "2001:db8::5", "::ffff:10.0.0.1",
+	"1.2.3", "10.0.0.256", "10.0.0.1|10.0.0.2", "10.0.0.1|x", ".*", "(", "[a-", "a{2,1}", "^/api", "\\d+", "0-9999", "100", "100-200|400",
+	"5-4", "10000", "-1", "1-2-3", " 1 - 2 ", "+7", "9223372036854775808", "1\t", "|", "0|", "00012",
+	"20190204203000H", "20190204204500H", "20190204203000Z", "20190204203000", "20191304203000H", "20190204203000J", "20190204203000 H", "x",
+	"203000H", "204500H", "203000Z", "12 Z", "1 Z", "250000H", "000000", "000000 Z", "000000Zjunk", "235959h", "true", "/api/search|/x", "Day", "GET|POST", "uid"}
+var intPool = []string{"0", "1", "42", "0x1F", "007", "99999999999999999999", "1e3", "1.5", "0b1"}
+var fakeNames = []string{"req_host", "req_host_inn", "REQ_HOST_IN", "default", "req-host-in", "x", "ses_tls_sni", "req_path_match", "bfe_time", "req_cip_in", "if", "func", "true1", "a-b"}
+
+func genArg(r *hv.Rng, kind int) condh.Arg {
+	switch kind {
+	case 2:
+		return condh.Arg{Kind: 2, Val: []string{"true", "false"}[r.Intn(2)]}
+	case 3:
+		return condh.Arg{Kind: 3, Val: intPool[r.Intn(5)]}
+	default:
+		return condh.Arg{Kind: 1, Val: strPool[r.Intn(len(strPool))]}
+	}
+}
+
+// a valid-looking argument for position si of primitive name (so that most calls get past the validators)
+func goodArg(r *hv.Rng, name string, kind, si int) condh.Arg {
+	if kind != 1 {
+		return genArg(r, kind)
+	}
+	pick := func(xs ...string) condh.Arg { return condh.Arg{Kind: 1, Val: xs[r.Intn(len(xs))]} }
+	switch {
+	case strings.HasSuffix(name, "_regmatch") && (si == 1 || !strings.Contains(name, "_value_")):
+		return pick(".*", "^/api", "\\d+", "(", "[a-", "a{2,1}", "x|y", "")
+	case strings.HasSuffix(name, "_hash_in") && (si == 1 || name == "req_cip_hash_in"):
+		return pick("0-9999", "100", "100-200|400", "5-4", "10000", "-1", "1-2-3", " 1 - 2 ", "+7", "9223372036854775808", "1\t", "|", "0|", "00012", "9999", "9999-9999", "", "1-", "١")
+	case strings.HasSuffix(name, "ip_range"):
+		if si == 0 {
+			return pick("10.0.0.1", "10.0.0.9", "::1", "2001:db8::5", "::ffff:10.0.0.1", "1.2.3", "", "0.0.0.0")
+		}
+		return pick("10.0.0.1", "10.0.0.9", "::1", "2001:db8::5", "::ffff:10.0.0.9", "10.0.0.256", "255.255.255.255", "ffff::")
+	case name == "req_vip_in":
+		return pick("10.0.0.1", "10.0.0.1|10.0.0.2", "10.0.0.1|x", "::1|1.1.1.1", "", "|", "1.1.1.1|")
+	case name == "req_host_in":
+		return pick("www.example.com|example.com", "a:80", "a|b:1", "", ":", "[::1]")
+	case name == "bfe_time_range":
+		return pick("20190204203000H", "20190204204500H", "20190204203000Z", "20190204203000", "20191304203000H", "20190204203000J", "20190204203000 H", "x", "20190204203000h", "", "20190204123000A")
+	case name == "bfe_periodic_time_range":
+		if si == 2 {
+			return pick("", "", "", "Day", " ")
+		}
+		return pick("203000H", "204500H", "203000Z", "12 Z", "1 Z", "250000H", "000000", "000000 Z", "000000Zjunk", "235959h", "", "203000A", "123", "12345 Z")
+	}
+	return genArg(r, 1)
+}
+
+func genCall(r *hv.Rng) (string, []condh.Arg, string) {
+	p := condh.Primitives[r.Intn(len(condh.Primitives))]
+	// bias towards the primitives with validators
+	if r.Chance(1, 2) {
+		v := []string{"req_vip_in", "req_vip_range", "req_cip_range", "ses_vip_range", "ses_sip_range", "req_cip_hash_in", "req_query_value_hash_in",
+			"req_cookie_value_hash_in", "req_header_value_hash_in", "req_host_in", "req_host_regmatch", "req_path_regmatch", "req_url_regmatch",
+			"req_ua_regmatch", "req_query_value_regmatch", "req_header_value_regmatch", "bfe_time_range", "bfe_periodic_time_range"}
+		want := v[r.Intn(len(v))]
+		for _, q := range condh.Primitives {
+			if q.Name == want {
+				p = q
+			}
+		}
+	}
+	name := p.Name
+	var args []condh.Arg
+	si := 0
+	for _, k := range p.Kinds {
+		args = append(args, goodArg(r, name, k, si))
+		if k == 1 {
+			si++
+		}
+	}
+	class := "call"
+	switch r.Intn(12) {
+	case 0: // unknown primitive
+		name = fakeNames[r.Intn(len(fakeNames)-4)]
+		class = "call-unknown"
+	case 1: // drop an argument
+		if len(args) > 0 {
+			j := r.Intn(len(args))
+			args = append(args[:j:j], args[j+1:]...)
+			class = "call-arity"
+		}
+	case 2: // extra argument
+		args = append(args, genArg(r, 1+r.Intn(3)))
+		class = "call-arity"
+	case 3: // change the kind of one argument
+		if len(args) > 0 {
+			j := r.Intn(len(args))
+			k := 1 + r.Intn(3)
+			if k != args[j].Kind {
+				args[j] = genArg(r, k)
+				class = "call-kind"
+			}
+		}
+	case 4: // unrelated argument text
+		if len(args) > 0 {
+			j := r.Intn(len(args))
+			args[j] = genArg(r, args[j].Kind)
+		}
+	case 5: // many arguments
+		for n := r.Range(3, 6); n > 0; n-- {
+			args = append(args, genArg(r, 1+r.Intn(3)))
+		}
+		class = "call-arity"
+	}
+	return name, args, class
+}
+
+var soupToks = []string{"(", ")", "&&", "||", "!", ",", "\"", "`", "'", ";", "&", "|", "//", "\n", " ", "\\", "true", "false", "1", "0x", "1e", "1.", ".5",
+	"req_host_in", "default_t", "default_t()", "req_host_in(\"a\")", "req_path_in(\"/a\", true)", "\"abc\"", "`abc`", "\"a\\\"b\"", "\"\\q\"", "\"\\x4\"", "\"\\u12\"", "\"\\777\"",
+	"bfe_periodic_time_range(\"12 Z\",\"1 Z\",\"\")", "req_cip_hash_in(\"1-", "$x", "if", "func", "a-b", "é", "\xff", "\x00", "\ufeff", "0b", "08", "1_0", "'a'", "/", "/*", "req_vip_in(", "x(1,true,\"s\")"}
+
+func gen(r *hv.Rng, i int, tier string) (string, hv.Val) {
+	switch k := r.Intn(20); {
+	case k < 5: // token soup
+		n := r.Range(0, 8)
+		var sb strings.Builder
+		for j := 0; j < n; j++ {
+			sb.WriteString(soupToks[r.Intn(len(soupToks))])
+			if r.Chance(1, 3) {
+				sb.WriteString(" ")
+			}
+		}
+		cl := "raw-soup"
+		if n == 0 {
+			cl = "triv-empty"
+		}
+		return cl, hv.L{hv.I(1), hv.S(sb.String())}
+	case k < 7: // raw bytes / truncated or corrupted valid text
+		if r.Chance(1, 3) {
+			return "raw-bytes", hv.L{hv.I(1), hv.B(r.Bytes(r.Range(1, 12)))}
+		}
+		name, args, _ := genCall(r)
+		t := []byte(condh.RenderCall(name, args, r.U64()))
+		switch r.Intn(3) {
+		case 0:
+			t = t[:r.Intn(len(t)+1)]
+		case 1:
+			t[r.Intn(len(t))] = byte(r.U64())
+		default:
+			j := r.Intn(len(t))
+			t = append(t[:j:j], t[j+1:]...)
+		}
+		return "raw-mutated", hv.L{hv.I(1), hv.B(t)}
+	case k < 16:
+		name, args, class := genCall(r)
+		return class, hv.L{hv.I(2), hv.S(name), condh.ArgsVal(args), condh.Oracle(name+"ip_time_regmatch_hash_in_vip", args, nil)}
+	default: // composite over 1..4 calls / identifiers
+		nc := r.Range(1, 4)
+		calls := hv.L{}
+		var all []condh.Arg
+		for j := 0; j < nc; j++ {
+			if r.Chance(1, 8) {
+				calls = append(calls, hv.L{hv.S([]string{"x", "news_host", "default_t", "req_host_in", "a1"}[r.Intn(5)])})
+				continue
+			}
+			name, args, _ := genCall(r)
+			if r.Chance(2, 3) { // mostly valid simple calls so that the composite is usually accepted
+				name, args = "req_method_in", []condh.Arg{{Kind: 1, Val: "GET"}}
+				if r.Bool() {
+					name, args = "default_t", nil
+				}
+			}
+			calls = append(calls, hv.L{hv.S(name), condh.ArgsVal(args)})
+			all = append(all, args...)
+		}
+		var toks []int
+		n := r.Range(1, 4)
+		for j := 0; j < n; j++ {
+			if j > 0 {
+				toks = append(toks, 100+r.Intn(2))
+			}
+			if r.Chance(1, 4) {
+				toks = append(toks, 102)
+			}
+			if r.Chance(1, 5) {
+				toks = append(toks, 103, r.Intn(nc), 104)
+			} else {
+				toks = append(toks, r.Intn(nc))
+			}
+		}
+		if r.Chance(1, 6) {
+			j := r.Intn(len(toks))
+			toks[j] = []int{100, 101, 102, 103, 104}[r.Intn(5)]
+		}
+		return "composite", hv.L{hv.I(3), hv.LI(toks), calls, condh.Oracle("ip_time_regmatch_hash_in_vip", all, nil)}
+	}
+}
+
+func main() {
+	hv.Main(&hv.Spec{Prop: "C17", Gen: gen, Impl: impl, NQuick: 20000, NThorough: 1000000, Deadline: 5 * time.Second})
 }
